@@ -13,7 +13,7 @@ package namedpipe
 //@   allocates
 
 //@ func (*NamedPipeIngester).Ingest
-//@   blocks cancellable external os.OpenFile: runs in its own goroutine, the caller selects on ctx.Done() and abandons it; ReadString: the goroutine waiting on ctx.Done() closes the file, which ends the blocked read
+//@   blocks cancellable external os.OpenFile: runs in its own goroutine, the caller selects on ctx.Done() and abandons it; bufio.Reader.Read: the goroutine waiting on ctx.Done() closes the file, which ends the blocked read
 //@   requires n != nil && n.Logger != nil && n.Health != nil && HealthOK(n.Health) && ctx != nil && callback != nil
 //@   ensures[nonnil] result != nil
 //@   ensures[once] rdcount == old(rdcount) || rdcount == old(rdcount) + 1
